@@ -57,9 +57,13 @@ RULE = ("hist: case = pool of 2-3 node ids + history of up to 120 (quick) / 300 
         "over two 6/7-letter alphabets are enumerated, Hypothesis draws the long ones; a reference multimap "
         "predicts after every frame the exact ordered event log (callback invocations with id/data/timestamp and "
         "a probe of every node object's state, heartbeat/EMCY hook calls, frames sent by local nodes) and the "
-        "scanner list; a final sweep puts a frame on every id that ever had a subscriber. id: one case per CAN id "
-        "(all 2048 11-bit ids, 4096 sampled 29-bit ids): send_message/send_periodic variants, listener flag "
-        "combinations, scanner alone. scan: id sequences. Non-trivial: hist with >=1 successful replace/remove of "
+        "scanner list; a final sweep puts a frame on every id that ever had a subscriber; two template histories "
+        "(remote->local->remote->removed and local->remote->same object again->removed, frames on all its ids in "
+        "between) are run for every node id 1..127. id: one case per CAN id (all 2048 11-bit ids, 4096 (quick) / "
+        "262144 (thorough) sampled 29-bit ids): send_message/send_periodic variants (bytes, list, bytearray, None; "
+        "remote on/off), listener flag combinations, scanner alone. scan: id sequences (affine permutations of all "
+        "2048 ids with 29-bit ids mixed in; Hypothesis sequences over pooled nodes x all 16 function codes with "
+        "resets). Non-trivial: hist with >=1 successful replace/remove of "
         "a node and >=1 duplicate subscribe; id with a 29-bit id or 0x7FF/0x800 neighbourhood; scan with a "
         "repeated listed node or a 29-bit id. Distinct = canonical JSON of the case.")
 ASSUMPTIONS = [
@@ -83,7 +87,8 @@ ASSUMPTIONS = [
 BUDGET = {"quick": 40, "thorough": 330}
 
 NCB = 6
-HIST_EXAMPLES = {"quick": (700, 1800), "thorough": (4000, 12000)}   # (short/medium, long) per shard
+# Hypothesis examples per shard: short histories, long histories (int list), long histories (bytes), scanner sequences
+EXAMPLES = {"quick": (600, 700, 1400, 1500), "thorough": (3000, 3000, 8000, 6000)}
 STATE_NAME = {0: "INITIALISING", 4: "STOPPED", 5: "OPERATIONAL", 127: "PRE-OPERATIONAL"}
 NMT_CMD = {1: 5, 2: 4, 128: 127}          # CiA 301: start, stop, enter pre-operational
 UPLOAD_2000 = bytes([0x40, 0x00, 0x20, 0x00, 0, 0, 0, 0])
@@ -900,15 +905,24 @@ def _unpack_bytes(b):
     return [(b[i] & 15, b[i + 1], b[i + 2], b[i + 3]) for i in range(0, len(b) - 3, 4)]
 
 
+def _unpack_int(v):
+    # Hypothesis favours small integers; an odd multiplier mod 2^28 is a bijection that spreads them over all fields
+    v = (v * 0x9E3779B1) & 0xFFFFFFF
+    return (v & 15, (v >> 4) & 255, (v >> 12) & 255, (v >> 20) & 255)
+
+
 def hist_strategy(maxlen, long=False):
-    """Short histories are lists of small-integer tuples (shrink well); the longer ones come from one byte
-    string, 4 bytes per op (Hypothesis draws that an order of magnitude faster)."""
-    if long:
+    """long=False: a list with one integer per op (shrinks well: ops can be deleted one by one);
+    long="bytes": one byte string, 4 bytes per op (Hypothesis draws that several times faster, shrinks badly)."""
+    if long == "bytes":
         raw = st.one_of(st.binary(min_size=4 * 12, max_size=4 * 60),
                         st.binary(min_size=4 * 60, max_size=4 * maxlen)).map(_unpack_bytes)
     else:
-        op = st.tuples(st.integers(0, 15), st.integers(0, 255), st.integers(0, 255), st.integers(0, 255))
-        raw = st.lists(op, min_size=1, max_size=maxlen)
+        op = st.integers(0, (1 << 28) - 1).map(_unpack_int)
+        if long:
+            raw = st.one_of(st.lists(op, min_size=12, max_size=60), st.lists(op, min_size=60, max_size=maxlen))
+        else:
+            raw = st.lists(op, min_size=1, max_size=maxlen)
     node = st.one_of(st.sampled_from([1, 2, 126, 127]), st.integers(1, 127))
     # raw is drawn first: Hypothesis fills draws that come after a changed prefix with zeros far more often
     return st.tuples(
@@ -919,23 +933,55 @@ def hist_strategy(maxlen, long=False):
     ).map(lambda t: decode(t[1], t[2], t[3], t[0]))
 
 
-def scan_strategy():
-    pool_nodes = st.lists(st.integers(1, 127), min_size=1, max_size=4)
+def decode_scan(raw, nodes, resets):
+    """3 bytes per id: ids of the pooled nodes under all 16 function codes (repeats), any 11-bit id, 29-bit ids."""
+    pool = list(nodes) + [0]
+    ids = []
+    for i in range(0, len(raw) - 2, 3):
+        s, x, y = raw[i], raw[i + 1], raw[i + 2]
+        svc = (x % 16) * 128 + pool[y % len(pool)]
+        if s % 4 <= 1:
+            ids.append(svc)
+        elif s % 4 == 2:
+            ids.append(((x << 8) | y) & 0x7FF)
+        else:
+            high = 1 + (((x << 8) | y | (s << 16)) * 2654435761) % 0x3FFFF
+            ids.append((high << 11) | (svc if s & 4 else ((x << 8) | y) & 0x7FF))
+    case = {"fam": "scan", "ids": ids}
+    rs = sorted({r % len(ids) for r in resets if r % len(ids)})
+    if rs:
+        case["resets"] = rs
+    return case
 
-    @st.composite
-    def seq(draw):
-        nodes = draw(pool_nodes)
-        svc = st.builds(lambda fc, n: fc * 128 + n, st.integers(0, 15), st.sampled_from(nodes + [0]))
-        any11 = st.integers(0, 0x7FF)
-        ext = st.builds(lambda hi, lo: (hi << 11) | lo, st.integers(1, 0x3FFFF), st.one_of(svc, any11))
-        one = st.one_of(svc, svc, any11, ext)
-        ids = draw(st.one_of(st.lists(one, min_size=2, max_size=10), st.lists(one, min_size=20, max_size=80)))
-        resets = draw(st.lists(st.integers(1, max(1, len(ids) - 1)), max_size=2, unique=True))
-        case = {"fam": "scan", "ids": ids}
-        if resets:
-            case["resets"] = sorted(resets)
-        return case
-    return seq()
+
+def scan_strategy():
+    raw = st.one_of(st.binary(min_size=6, max_size=30), st.binary(min_size=60, max_size=240))
+    return st.tuples(raw, st.lists(st.integers(1, 127), min_size=1, max_size=4),
+                     st.lists(st.integers(1, 79), max_size=2)).map(lambda t: decode_scan(*t))
+
+
+def node_templates():
+    """Two mixed local/remote life cycles for every node id 1..127."""
+    emcy = bytes([0x00, 0x50, 0x11, 9, 8, 7, 6, 5])
+    for n in range(1, 128):
+        hb, em, tx, rq = 0x700 + n, 0x80 + n, 0x580 + n, 0x600 + n
+
+        def frames(t):
+            return [{"op": "frame", "id": hb, "data": bytes([5 if t % 2 else 127]), "ts": 50.0 + t, "via": "notify"},
+                    {"op": "frame", "id": em, "data": emcy, "ts": 50.25 + t, "via": "listener"},
+                    {"op": "frame", "id": tx, "data": bytes([0x60, 0, 0x20, 0, 0, 0, 0, 0]), "ts": 50.5 + t,
+                     "via": "notify"},
+                    {"op": "frame", "id": rq, "data": UPLOAD_2000, "ts": 50.75 + t, "via": "listener"},
+                    {"op": "frame", "id": 0, "data": bytes([(1, 2, 128)[t % 3], n if t % 2 else 0]), "ts": 51.0 + t,
+                     "via": "notify"}]
+        subs = [{"op": "sub", "id": i, "cb": j} for j, i in enumerate((hb, em, tx, rq, 0))]
+        yield {"fam": "hist", "nodes": [n], "ops": subs[:2] + [{"op": "add_remote", "n": n}] + subs[2:] + frames(1) +
+               [{"op": "sub", "id": hb, "cb": 0}, {"op": "create_local", "n": n}] + frames(2) +
+               [{"op": "add_remote_int", "n": n}] + frames(3) + [{"op": "del", "n": n}] + frames(4)}
+        yield {"fam": "hist", "nodes": [n], "ops": [{"op": "set_local", "n": n}] + subs + frames(1) +
+               [{"op": "add_remote", "n": n}, {"op": "add_sdo", "k": 0, "rx": rq, "tx": em}] + frames(2) +
+               [{"op": "sub", "id": em, "cb": 1}, {"op": "readd", "k": 1}] + frames(3) + [{"op": "readd", "k": 0}] +
+               frames(4) + [{"op": "del", "n": n}, {"op": "del", "n": n}] + frames(5)}
 
 
 def showcase():
@@ -972,7 +1018,7 @@ def search(ctx):
     def ids():
         for can_id in range(0x800):
             yield {"fam": "id", "id": can_id}
-        for i in range(65536 if thorough else 4096):
+        for i in range(262144 if thorough else 4096):
             yield {"fam": "id", "id": ext_sample(i)}
 
     ctx.enumerate(ids(), "send/receive/scanner rules for every 11-bit id and sampled 29-bit ids")
@@ -987,7 +1033,18 @@ def search(ctx):
     ctx.enumerate(perms(), "scanner fed every 11-bit id in permuted orders, 29-bit ids mixed in")
     ctx.enumerate(enum_hist(5 if thorough else 4), "all histories up to length 4 (quick) / 5 (thorough) over two "
                   "small alphabets")
-    ctx.hypothesis(scan_strategy(), 6000 if thorough else 800, salt=1)
-    n_short, n_long = HIST_EXAMPLES[ctx.tier]
-    ctx.hypothesis(hist_strategy(16), n_short, salt=2)
-    ctx.hypothesis(hist_strategy(300 if thorough else 120, long=True), n_long, salt=4)
+    ctx.enumerate(node_templates(), "two mixed remote/local life-cycle histories for every node id 1..127")
+    n_short, n_mid, n_long, n_scan = EXAMPLES[ctx.tier]
+    maxlen = 300 if thorough else 120
+    # Round-robin in chunks, so that a budget running out (loaded machine) cuts every generator proportionally
+    # instead of starving the last one, and no examples are generated after the budget is gone.
+    # Within a round: the well-shrinking long histories before the fast kind.
+    plan = [[hist_strategy(maxlen, long=True), n_mid, 5], [hist_strategy(maxlen, long="bytes"), n_long, 4],
+            [hist_strategy(16), n_short, 2], [scan_strategy(), n_scan, 1]]
+    rounds = 8 if thorough else 2
+    for r in range(rounds):
+        for strat, n, salt in plan:
+            if ctx.over_budget():
+                ctx.notes.append("time budget ran out during the Hypothesis rounds (exhaustive parts were complete)")
+                return
+            ctx.hypothesis(strat, (n + rounds - 1) // rounds, salt=salt + 10 * r)
